@@ -204,11 +204,11 @@ class _Gen:
     def int_lit(self):
         r = self.r.random()
         if r < 0.7:
-            return ["lit", self.ch(["0", "1", "2", "3", "5", "7", "10", "32", "1_000", "255"])]
-        return ["lit", self.ch(["0x1F", "0xff", "0b101", "0B11", "0o17", "0X2a"])]
+            return ["lit", self.ch(["0", "1", "2", "3", "5", "7", "10", "32", "1_000", "255", "1_000_000", "1_2_3_4", "0_0"])]
+        return ["lit", self.ch(["0x1F", "0xff", "0b101", "0B11", "0o17", "0X2a", "0x_1_f", "0b1_0_1_0", "0o1_7_7", "0xDEAD_BEEF_00"])]
 
     def float_lit(self):
-        return ["lit", self.ch(["1.5", "0.25", "3.0", "1e3", "2.5e-2", ".5", "6.02E+3"])]
+        return ["lit", self.ch(["1.5", "0.25", "3.0", "1e3", "2.5e-2", ".5", "6.02E+3", "1_0.2_5", "1_0e1_0", "5.", "0.0e0", "1E-1_0"])]
 
     def timing_lit(self):
         return ["lit", self.ch(["10", "100", "2", "1.5", "0.5", "20"]) + self.ch(UNITS)]
@@ -227,7 +227,7 @@ class _Gen:
         if r < 0.89:
             return ["lit", self.ch(["true", "false"])]
         if r < 0.94:
-            return ["lit", self.ch(['"0101"', '"1"', "'0011'", '"1_0"'])]
+            return ["lit", self.ch(['"0101"', '"1"', "'0011'", '"1_0"', '"1_0_1_0_1"', "'1010_0101_1100'", '"0_0_0"', '""'])]
         if r < 0.97:
             return ["id", self.ch(["pi", "tau"])]
         return self.imag_lit()
@@ -426,7 +426,7 @@ class _Gen:
             init = ["bin", self.ch(["+", "-"]), self.float_lit(), self.imag_lit()] if self.p(0.4) \
                 else (self.expr(2) if (const or self.p(0.5)) else None)
         elif tn == "bit" and self.p(0.3):
-            init = ["lit", self.ch(['"0101"', '"11"', "'1'"])]
+            init = ["lit", self.ch(['"0101"', '"11"', "'1'", '"1_0_1_0_1"', "'1_1_1'"])]
             name = self.ch(BITVARS)
         else:
             init = self.expr(3) if (const or self.p(0.65)) else None
